@@ -122,3 +122,58 @@ func VH_C09_WriterCancel() {
 	vhAssert(errors.Is(werr, context.Canceled), "returns-the-contexts-error")
 	vhReach("c09-cancel")
 }
+
+// Reader.Close while a ReadMessage is blocked waiting for data that does not come (the answer to the next fetch is
+// held back): Close returns, the blocked call returns io.EOF, the connections are closed, later calls fail.
+func VH_C09_ReaderClose(n int) {
+	vhConcreteClock(true)
+	var set []byte
+	vals := make([][]byte, n)
+	for i := 0; i < n; i++ {
+		vals[i] = vhBytes("value", 2)
+		set = append(set, vhEncMessage(int64(i), 1, 0, 1600000000000, nil, vals[i])...)
+	}
+	meta := append(vhApiVersionsFrame(1, []vhApiRange{{int16(metadata), 0, 1}}), vhMetadataResponse(2, 1, "t", 0, 0, 1)...)
+	var s []byte
+	s = append(s, vhListOffsetsFrame(1, "t", 0, 0, -1, 0)...)
+	s = append(s, vhListOffsetsFrame(2, "t", 0, 0, -1, int64(n))...)
+	s = append(s, vhListOffsetsFrame(3, "t", 0, 0, -1, 0)...)
+	s = append(s, vhListOffsetsFrame(4, "t", 0, 0, -1, int64(n))...)
+	s = append(s, vhApiVersionsFrame(5, []vhApiRange{{int16(fetch), 0, 2}})...)
+	s = append(s, vhFetchResponse(6, 2, 0, "t", 0, 0, int64(n), set)...)
+	leader := &vhFakeConn{data: s, gate: make(chan struct{}), gateAfter: len(s)} // after the first fetch: silence
+	conns := []*vhFakeConn{{data: meta}, leader}
+	dials := 0
+	d := &Dialer{DialFunc: func(c context.Context, network, address string) (net.Conn, error) {
+		if dials >= len(conns) {
+			return nil, io.ErrClosedPipe
+		}
+		fc := conns[dials]
+		dials++
+		return fc, nil
+	}}
+	r := NewReader(ReaderConfig{Brokers: []string{"b:9092"}, Topic: "t", Partition: 0, Dialer: d, MinBytes: 1, MaxBytes: 100000, MaxWait: time.Second,
+		ReadLagInterval: -1}) // no lag reporter (it would dial a connection of its own)
+	ctx := context.Background()
+	for i := 0; i < n; i++ {
+		m, err := r.ReadMessage(ctx)
+		vhAssert(err == nil && m.Offset == int64(i) && vhBytesEq(m.Value, vals[i]), "messages-before-the-silence-are-delivered")
+	}
+	var err3, cerr error
+	done3, closed := false, false
+	go func() { _, err3 = r.ReadMessage(ctx); done3 = true }()
+	vhSettle()
+	vhAssert(!done3, "read-blocks-while-no-data-arrives")
+	closedCh := make(chan struct{})
+	go func() { cerr = r.Close(); closed = true; close(closedCh) }()
+	// the caller waits: time passes (the pending read runs into its deadline), never for ever - a Close that does not
+	// return is a deadlock of this harness
+	<-closedCh
+	vhSettle()
+	vhAssert(closed && cerr == nil, "reader-close-returns")
+	vhAssert(done3 && errors.Is(err3, io.EOF), "blocked-read-returns-EOF-when-the-reader-is-closed")
+	vhAssert(leader.closed, "reader-close-closes-the-connection")
+	_, err4 := r.ReadMessage(ctx)
+	vhAssert(errors.Is(err4, io.EOF), "read-after-close-fails-with-EOF")
+	vhReach("c09-reader-close")
+}
